@@ -26,5 +26,6 @@ for id in $ids; do
   if [ -n "$caught" ]; then echo "$id CAUGHT by$caught"; else echo "$id MISSED (ran: $checks)"; miss=$((miss+1)); fi
   git -C $W checkout -q -- .
 done
+git checkout -q -- evidence 2>/dev/null  # evidence written while /repo was mutated must not survive
 echo "seeded changes: $n run, $miss missed"
 exit $miss
